@@ -318,8 +318,17 @@ func (c *Trait) NotifyDeleted(ctx context.Context, key []byte) {
 	}
 }
 
+// notifyExpirationSet tells cleanup job of a cache with UnlimitedTTL that there are entries with expiration.
+func (c *Trait) notifyExpirationSet() {
+	atomic.AddInt64(&c.expirationsSet, 1)
+}
+
 // NotifyExpiredAll collects logs and metrics.
 func (c *Trait) NotifyExpiredAll(ctx context.Context, start time.Time, cnt int) {
+	if cnt > 0 {
+		c.notifyExpirationSet()
+	}
+
 	if c.Log.logImportant != nil {
 		c.Log.logImportant(ctx, "expired all entries in cache",
 			"name", c.Config.Name,
